@@ -39,6 +39,9 @@ type GenOpts struct {
 	// probability that one List call of the pass fails once (Scenario.ListFaults): mostly the Namespace list that resolves the
 	// namespaceSelector of a (running or pending) pod's required anti-affinity term, sometimes a Pod or NodePool list
 	ListFaults float64
+	// probability (in worlds whose pending pods mount volumes) that one Get of a PersistentVolumeClaim / PersistentVolume /
+	// StorageClass issued during the pass fails once: the lookups of Provisioner.Validate and of the volume topology
+	GetFaults float64
 	Existing   float64 // probability scale for existing nodes
 	Reserved   bool    // generate reserved offerings and enable the feature gate
 	Limits     float64 // probability that a pool has limits
@@ -502,7 +505,25 @@ func GenScenario(r *rand.Rand, o GenOpts) *Scenario {
 	if o.ListFaults > 0 && r.Float64() < o.ListFaults {
 		DecorateListFault(r, s)
 	}
+	if o.GetFaults > 0 && len(s.PVCs) > 0 && r.Float64() < o.GetFaults {
+		DecorateGetFault(r, s)
+	}
 	return s
+}
+
+// DecorateGetFault makes one Get of a volume object fail once during the pass (503): the Nth PersistentVolumeClaim lookup
+// (validation looks every claim of a pending pod up once, the volume topology once more), or a PersistentVolume / StorageClass
+// lookup.  A pod whose volumes cannot be resolved must not be placed as if it had none.
+func DecorateGetFault(r *rand.Rand, s *Scenario) {
+	vols := 0
+	for i := range s.Pods {
+		vols += len(s.Pods[i].Volumes)
+	}
+	if vols == 0 {
+		return
+	}
+	kind := pick(r, []string{"Get:PersistentVolumeClaim", "Get:PersistentVolumeClaim", "Get:PersistentVolumeClaim", "Get:PersistentVolume", "Get:StorageClass"})
+	s.ListFaults = append(s.ListFaults, ListFault{Kind: kind, Nth: 1 + r.IntN(2*vols+2)})
 }
 
 // ---------- optional vocabulary ----------
